@@ -13,7 +13,10 @@ def parse_file(relpath):
     k = (p, st.st_mtime_ns, st.st_size)
     if k not in _cache:
         src = open(p).read()
-        _cache[k] = (src, ast.parse(src))
+        import warnings
+        with warnings.catch_warnings():
+            warnings.simplefilter('ignore')
+            _cache[k] = (src, ast.parse(src))
     return _cache[k]
 
 
